@@ -37,8 +37,9 @@ _FOREIGN = sorted(set(n for sp in refspec.METHODS.values()
 def shards(tier, seed):
     per = 40 if tier == 'quick' else 1500
     groups = common.split(common.ALL_INDEXES + [-1], 8)
-    return [{'name': 'g%d' % i, 'indexes': g, 'per': per}
-            for i, g in enumerate(groups)]
+    return common.with_configs(
+        [{'name': 'g%d' % i, 'indexes': g, 'per': per}
+         for i, g in enumerate(groups)], common.ALL_CONFIGS, take=8)
 
 
 def cases(shard, rnd):
@@ -166,6 +167,8 @@ def run_case(case, rec):
     from pamqp import commands, header
     rec.ev()
     idx = case['index']
+    if common.skip_under_config(idx):
+        return
     names, types, label = _names_types(idx)
     cls = commands.Basic.Properties if idx == -1 else \
         boundary.lib_class_for(idx)
